@@ -247,6 +247,9 @@ def gp_scenarios(an, model, gp):
                     return True
                 if isinstance(e, ast.Name) and e.id == "AES_AVAILABLE" or isinstance(e, ast.Attribute) and e.attr == "AES_AVAILABLE":
                     return avail
+                if isinstance(e, ast.Call) and isinstance(e.func, ast.Name) and e.func.id == "isinstance" and len(e.args) == 2 \
+                        and isinstance(e.args[1], ast.Name) and e.args[1].id == "str" and isinstance(val(e.args[0], node, sp), str):
+                    return True         # the method name under this scenario is a string
                 if isinstance(e, ast.Compare) and len(e.ops) == 1:
                     lv = val(e.left, node, sp)
                     if not isinstance(lv, str):
@@ -300,6 +303,8 @@ def gp_scenarios(an, model, gp):
                             f = pl.func
                             if isinstance(f, ast.Name):
                                 fs = sp.sources(f, sp.where.get(id(pl)) or at)
+                                # (a None left over from `TABLE.get(name)` cannot be what is called)
+                                fs = [(k_, p_) for k_, p_ in fs if not (k_ == "expr" and isinstance(p_, ast.Constant) and p_.value is None)]
                                 if len(fs) == 1 and fs[0][0] == "expr" and isinstance(fs[0][1], (ast.Name, ast.Attribute)):
                                     f = fs[0][1]
                             classes.add(ast.unparse(f).split(".")[-1].lower())
